@@ -49,30 +49,47 @@ func kUnknown(a string) string {
 	return "F"
 }
 
-// accepted: an operand that is itself a non-suppressible error (H) may
-// propagate as H or be read as unknown - never as true or false.
+// accepted: operands are evaluated left to right (README "Operation"); an
+// operand that is evaluated and raises a non-suppressible error (H) makes the
+// connective raise it (C08: such errors are returned unchanged). The right
+// operand is not evaluated when the left one decides the result, so F && H = F
+// and T || H = T are the only ways an H operand can go unreported; an
+// implementation that evaluates it anyway may report H. "is unknown" of a
+// failing operand may be true (the pinned suite requires it for a missing
+// variable) or H.
 func accepted(op string, a, b string) []string {
-	asU := func(x string) string {
-		if x == "H" {
-			return "U"
-		}
-		return x
-	}
-	var v string
 	switch op {
 	case "&&":
-		v = kAnd(asU(a), asU(b))
+		switch {
+		case a == "H":
+			return []string{"H"}
+		case a == "F" && b == "H":
+			return []string{"F", "H"}
+		case b == "H":
+			return []string{"H"}
+		}
+		return []string{kAnd(a, b)}
 	case "||":
-		v = kOr(asU(a), asU(b))
+		switch {
+		case a == "H":
+			return []string{"H"}
+		case a == "T" && b == "H":
+			return []string{"T", "H"}
+		case b == "H":
+			return []string{"H"}
+		}
+		return []string{kOr(a, b)}
 	case "!":
-		v = kNot(asU(a))
-	case "isunknown":
-		v = kUnknown(asU(a))
+		if a == "H" {
+			return []string{"H"}
+		}
+		return []string{kNot(a)}
+	default: // isunknown
+		if a == "H" {
+			return []string{"T", "H"}
+		}
+		return []string{kUnknown(a)}
 	}
-	if a == "H" || b == "H" {
-		return []string{v, "H"}
-	}
-	return []string{v}
 }
 
 // KleeneCase: two conditions over @ (bound to the wrapper object = $).
